@@ -8,6 +8,7 @@ import (
 	"bytes"
 	"context"
 	"errors"
+	"sync"
 
 	"cloud.google.com/go/bigtable"
 	btapb "cloud.google.com/go/bigtable/admin/apiv2/adminpb"
@@ -117,6 +118,7 @@ type vKV struct {
 }
 
 type vFakeDB struct {
+	mu     sync.Mutex // goleveldb operations are atomic and safe for concurrent use
 	kvs    []*vKV
 	closed bool
 	path   string
@@ -174,6 +176,8 @@ func vLdbFind(f *vFakeDB, k []byte) int {
 
 func stubLdbGet(db *leveldb.DB, key []byte, ro *opt.ReadOptions) ([]byte, error) {
 	f := vDBOf(db)
+	f.mu.Lock()
+	defer f.mu.Unlock()
 	if f.closed {
 		return nil, leveldb.ErrClosed
 	}
@@ -186,6 +190,8 @@ func stubLdbGet(db *leveldb.DB, key []byte, ro *opt.ReadOptions) ([]byte, error)
 
 func stubLdbPut(db *leveldb.DB, key, value []byte, wo *opt.WriteOptions) error {
 	f := vDBOf(db)
+	f.mu.Lock()
+	defer f.mu.Unlock()
 	if f.closed {
 		return leveldb.ErrClosed
 	}
@@ -207,6 +213,8 @@ func stubLdbPut(db *leveldb.DB, key, value []byte, wo *opt.WriteOptions) error {
 
 func stubLdbDelete(db *leveldb.DB, key []byte, wo *opt.WriteOptions) error {
 	f := vDBOf(db)
+	f.mu.Lock()
+	defer f.mu.Unlock()
 	if f.closed {
 		return leveldb.ErrClosed
 	}
@@ -222,6 +230,8 @@ func stubLdbDelete(db *leveldb.DB, key []byte, wo *opt.WriteOptions) error {
 
 func stubLdbClose(db *leveldb.DB) error {
 	f := vDBOf(db)
+	f.mu.Lock()
+	defer f.mu.Unlock()
 	if f.closed {
 		return leveldb.ErrClosed
 	}
@@ -236,6 +246,8 @@ type vIter struct {
 
 func stubLdbNewIterator(db *leveldb.DB, slice *util.Range, ro *opt.ReadOptions) iterator.Iterator {
 	f := vDBOf(db)
+	f.mu.Lock()
+	defer f.mu.Unlock()
 	it := &vIter{pos: -1}
 	if f.closed {
 		return it
